@@ -18,7 +18,8 @@ EXPLANATION = (
     'and the argument tuple an error class hands to Exception.__init__ is accepted by the __init__ of every concrete error '
     'class (they are rebuilt as cls(*args)); (C12.4) restoring with build_code re-parses every formula.'
     ' (C12.5) whatever an evaluation leaves on the (persisted) formula nodes is rebuildable - no functions, signatures, lambdas, generators; (C12.6) custom pickling hooks of persisted classes give every field back for cells holding 0, FALSE, a blank, a number, a text (round trip interpreted on witnesses).'
-    ' (C12.3) error classes are constructed as written and rebuilt as cls(*instance.args); (C12.6) the pickling hooks of every persisted class: taking the state leaves the instance unchanged and a fresh instance gets every field back.')
+    ' (C12.3) error classes are constructed as written and rebuilt as cls(*instance.args); (C12.6) the pickling hooks of every persisted class: taking the state leaves the instance unchanged and a fresh instance gets every field back.'
+    ' (C12.1/.2/.4) run over a file system in memory (what the file holds decides, not which opener was named); (C12.7) file histories: a name written by larger and smaller models, plain and compressed, constants of every type, overwritten through every public route between two persists - what is restored is what was persisted last.')
 NOT_DECIDED = 'deep equality of arbitrary models, float/Unicode fidelity (jsonpickle/json behaviour)'
 TRUSTED = ['jsonpickle reconstruction contract: __new__(cls, *__getnewargs__()) for objects, cls(*args) for exceptions']
 
